@@ -140,6 +140,11 @@ def gen_cases(rng, tier, count=None):
             c = TW.safe_case(rng, la, tier, n_choices=[300, 500, 1000], fams=["noisy", "unit", "drift", "cl_sine", "cl_garland"])
             c["np_seed"] = int(c["np_seed"]) // 3 * 3
             c["kind"] = "repro"
+        if c.get("kind") == "repro" and len(c["box"]) >= 2 and rng.random() < 0.25:
+            # (all sides get the values of the first one, so that the descriptor's box is the box that is used - the
+            # closed-loop reward families read it)
+            c["box"] = [list(c["box"][0]) for _ in c["box"]]
+            c["alias_box"] = True
         if c.get("kind") == "repro" and rng.random() < 0.12:
             # a side written [hi, lo] (the repository's own partition tests pass [-5, -10]): midpoints, widths and
             # uniform draws are symmetric in the two end points, the unchanged code runs the loop on such a box like
@@ -176,7 +181,14 @@ def run_repro(case, viol, obs):
     if r1["crash"]:
         return "crash:" + r1["crash"]
     ub = r1.get("user_box")
-    r2 = TW.run_points(case, poison=[0.0, float("inf"), -1.0][case.get("np_seed", 0) % 3], queries=qs)
+    case2 = case
+    if case.get("alias_box") and all(list(iv) == list(case["box"][0]) for iv in case["box"]):
+        # the first run was given domain = [side] * d (one list object for every coordinate); its twin gets an
+        # equal-valued domain with a list of its own per coordinate: no dependence on object identity
+        case2 = dict(case, box=[list(case["box"][0]) for _ in case["box"]])
+        case2.pop("alias_box")
+        obs["twins_aliased_vs_separate_side_lists"] += 1
+    r2 = TW.run_points(case2, poison=[0.0, float("inf"), -1.0][case.get("np_seed", 0) % 3], queries=qs)
     if r1["qpoints"] != r2["qpoints"] and not r2["crash"]:
         V(viol, "C14:same_seed_and_inputs_give_different_recommendation", between_rounds=True)
     obs["points_compared"] += len(r1["points"]) + 1
